@@ -23,3 +23,27 @@ Example C07_vp8_example : (* last packet of a 3-packet frame lost, then an intac
              (enc_many 3 10 [[1; 2; 3; 4; 5]; [6; 7; 8]])
   = Some [DMore; DMore; DMore; DFrame [6; 7; 8]].
 Proof. vm_compute. reflexivity. Qed.
+
+(* ---- the translated kernels (tools/go2coq, spec.d/vp8.txt) ----
+   The S and PID fields read by pion's VP8Packet.Unmarshal and decodeFrameChunk's tests - vpkt.S == 1 && vpkt.PID == 0,
+   d.frameNextSeqNum = pkt.SequenceNumber + 1, d.frameBufferSize == 0, pkt.SequenceNumber != d.frameNextSeqNum,
+   d.frameNextSeqNum++ - ARE the expressions of Model.vp8_unmarshal / chunk_of. *)
+From Coq Require Import ZArith.
+From GVG Require Import Kern.
+From GV_vp8 Require Import BridgeLib Bridge.
+Open Scope Z_scope.
+Theorem C07_vp8_kernels_are_the_code : forall (b0 s pid seq next fs : N), byte b0 -> u16 seq -> u16 next ->
+  k_vp8_pion_S (Z.of_N b0) = Z.of_N (bit b0 4) /\
+  k_vp8_pion_PID (Z.of_N b0) = Z.of_N (b0 mod 8) /\
+  k_vp8_dec_start (Z.of_N s) (Z.of_N pid) = ((s =? 1)%N && (pid =? 0)%N) /\
+  k_vp8_dec_nextseq (Z.of_N seq) = Z.of_N (seq_next seq) /\
+  k_vp8_dec_nobuf (Z.of_N fs) = (fs =? 0)%N /\
+  k_vp8_dec_gap (Z.of_N seq) (Z.of_N next) = negb (seq =? next)%N /\
+  k_vp8_dec_incseq (Z.of_N next) = Z.of_N (seq_next next).
+Proof. exact resync_kernels_are_the_code. Qed.
+Print Assumptions C07_vp8_kernels_are_the_code.
+
+Example C07_vp8_example_kernels :
+  k_vp8_pion_S 16 = 1 /\ k_vp8_pion_S 239 = 0 /\ k_vp8_pion_PID 23 = 7 /\ k_vp8_dec_start 1 0 = true /\
+  k_vp8_dec_start 1 1 = false /\ k_vp8_dec_nextseq 65535 = 0 /\ k_vp8_dec_gap 5 5 = false /\ k_vp8_dec_gap 6 5 = true.
+Proof. vm_compute. repeat split. Qed.
